@@ -386,9 +386,23 @@ def main(argv=None):
             rec = json.loads(Path(a.replay).read_text())
             rc = mod.replay(ctx, rec) if hasattr(mod, "replay") else (print(json.dumps(rec, indent=1)) or 0)
             return rc
-        mod.run(ctx)
+        try:
+            mod.run(ctx)
+        except Infra:
+            raise
+        except Exception as e:  # noqa: a harness crash (typically on a changed /repo) must not hide what was found so far
+            import traceback
+            tb = traceback.format_exc()
+            ctx.note("harness exception: " + tb[-1500:])
+            if not (ctx.failures or ctx.disagreements):
+                # nothing recorded yet: the real code raised where it never does on the unchanged tree
+                ctx.disagree("harness-crash", {"exception": f"{type(e).__name__}: {e}"}, "exception while driving the real code", "no exception",
+                             note=tb[-600:])
         if (ctx.disagreements or ob["broken"]) and hasattr(mod, "search"):
-            mod.search(ctx)
+            try:
+                mod.search(ctx)
+            except Exception as e:  # noqa
+                ctx.note(f"search raised {type(e).__name__}: {e}")
     except Infra as e:
         print(f"INFRA property={pid}: {e}", file=sys.stderr)
         return 2
